@@ -223,6 +223,9 @@ class MirLocks:
         return viol, n_calls_under, user_calls
 
 
+GROWERS = {"extend_from_slice", "extend", "append", "push", "extend_from_within"}
+
+
 def run(facts, rep):
     rep.rule("R-LOCK(a)", "no re-acquisition of a lock (same type+field) while one of its guards is live, directly "
              "or through a callee (MIR live ranges; std RwLock is not re-entrant)")
@@ -354,6 +357,10 @@ def run(facts, rep):
                 rl = root_local(n["recv"])
                 if rl and rl[0] in wguards:
                     found.append(("shrink", rl[0], False, n))
+            if k == "MCall" and n.get("name") in GROWERS and n.get("args"):
+                rl = root_local(n["recv"])
+                if rl and rl[0] in wguards:
+                    found.append(("grow", rl[0], rl[0] in st, n))
             return st
 
         fl = Flow(facts, join, transfer, guard=guard, closure_mode="maybe")
@@ -385,6 +392,27 @@ def run(facts, rep):
                                   "before the write lock was taken may be stale, so a shorter array can overwrite a "
                                   "longer one and readers observe a shrunken cache" % (gname, fld, gname),
                                   facts.loc(p, node))
+            elif kind == "grow":
+                # data appended at the END of the protected value: if it was computed from a snapshot taken under the read
+                # guard (before the write lock), its position is right only if the length is still the snapshot's length
+                data = node["args"][-1]
+                from_snapshot = [nm for rl_, nm in rguards.items() if mentions(data, rl_)]
+                positioned = mentions(data, lid)
+                rechecked = any(h[0] == lid for h in stale_hits)      # an exiting check relating the current value to the snapshot
+                if not from_snapshot:
+                    rep.ok("R-LOCK(c)", key, "appended data does not derive from a snapshot taken before the write lock",
+                           facts.loc(p, node), nontrivial=False)
+                elif positioned or rechecked:
+                    rep.ok("R-LOCK(c)", key, "data computed from the read-guard snapshot is appended %s" %
+                           ("at an offset taken from the current value" if positioned else "after an exiting check against the snapshot"),
+                           facts.loc(p, node), sample={"function": p, "guard": gname, "field": fld})
+                else:
+                    rep.violation("R-LOCK(c)", key,
+                                  "`%s.%s(..)` appends data computed from the snapshot taken under the read guard `%s` (before the "
+                                  "write lock) at the current end of `%s`, and nothing under the write lock relates the current "
+                                  "length to the snapshot's: if another thread grew the cache in between, the elements land at "
+                                  "the wrong positions (check-then-act) and every later reader uses wrong cache entries" %
+                                  (gname, node.get("name"), from_snapshot[0], fld), facts.loc(p, node))
             else:
                 rep.violation("R-LOCK(d)", key, "`.%s()` through write guard `%s` shrinks the shared cache `%s` in a "
                               "&self function" % (node.get("name"), gname, fld), facts.loc(p, node))
